@@ -62,11 +62,20 @@ def _fd_content(fd):
 
 
 class _FileProxy:
-    """Write-mode file object whose writes are events."""
+    """Write-mode file object.
 
-    def __init__(self, rec, f, path, h):
+    Pure write modes ("w", "a", "x" without "+") are BUFFERED like a real file object: write()
+    only queues data; the bytes reach the disk at flush()/close() (one "write" event per flush,
+    which is the crash point: a power cut before it loses everything queued, `cut_half` lets the
+    first half through).  So a protocol that renames a temp file before closing it is seen as it
+    would be after a real crash: an empty/short file under the final name.
+    Update modes ("+") are written through (write, flush) call by call.
+    """
+
+    def __init__(self, rec, f, path, h, buffered=False):
         d = self.__dict__
         d["_rec"], d["_f"], d["_path"], d["_h"], d["_closed_ev"] = rec, f, path, h, False
+        d["_buffered"], d["_pending"] = buffered, []
 
     def __getattr__(self, name):
         return getattr(self._f, name)
@@ -87,7 +96,8 @@ class _FileProxy:
         self.close()
         return False
 
-    def write(self, data):
+    def _put(self, data):
+        """Move data to the disk as one recorded write (crash point)."""
         rec = self._rec
         n = len(data)
         half = rec._before("write", self._path)
@@ -104,12 +114,40 @@ class _FileProxy:
         rec._emit("write", self._path, h=self._h, n=n, cid=c, size=sz)
         return r
 
+    def write(self, data):
+        if self._rec.dead:
+            raise PowerCut("power is off")
+        if self._buffered:
+            self._pending.append(data)
+            return len(data)
+        return self._put(data)
+
     def writelines(self, lines):
         for x in lines:
             self.write(x)
 
+    def flush(self):
+        if self._rec.dead:
+            raise PowerCut("power is off")
+        if self._pending:
+            data = self._pending[0][:0].join(self._pending)
+            self.__dict__["_pending"] = []
+            if len(data):
+                self._put(data)
+        return self._f.flush()
+
+    def tell(self):
+        if self._pending:
+            return self._f.tell() + sum(len(x) for x in self._pending)
+        return self._f.tell()
+
+    def seek(self, *a):
+        self.flush()
+        return self._f.seek(*a)
+
     def truncate(self, size=None):
         rec = self._rec
+        self.flush()
         rec._before("ftruncate", self._path)
         self._f.flush()
         r = self._f.truncate(size) if size is not None else self._f.truncate()
@@ -121,21 +159,39 @@ class _FileProxy:
         if self._f.closed:
             return
         rec = self._rec
+        if not rec.dead:
+            try:
+                self.flush()
+            except PowerCut:
+                self._drop()
+                raise
         if rec.dead:
-            # power is off: drop the descriptor without flushing anything more
-            try:
-                _real["close"](self._f.fileno())
-            except OSError:
-                pass
-            try:
-                self._f.close()
-            except (OSError, ValueError):
-                pass
+            self._drop()
             return
         self._f.close()
         if not self._closed_ev:
             self.__dict__["_closed_ev"] = True
             rec._emit("close", self._path, h=self._h, mutating=False)
+
+    def __del__(self):
+        # a real file object flushes when it is collected
+        try:
+            if not self._f.closed and not self._rec.dead and self._rec.active:
+                self.close()
+        except BaseException:
+            pass
+
+    def _drop(self):
+        # power is off: drop the descriptor without flushing anything more
+        self.__dict__["_pending"] = []
+        try:
+            _real["close"](self._f.fileno())
+        except (OSError, ValueError):
+            pass
+        try:
+            self._f.close()
+        except (OSError, ValueError):
+            pass
 
 
 class Recorder:
@@ -406,7 +462,7 @@ class Recorder:
         self._h += 1
         self._emit("open", rp, h=self._h, created=creates, truncated=truncs, obj=self._describe(rp), omode=mode,
                    mutating=creates or truncs)
-        return _FileProxy(self, f, rp, self._h)
+        return _FileProxy(self, f, rp, self._h, buffered="+" not in mode)
 
     def _w_rmtree(self, path, ignore_errors=False, onerror=None, *, onexc=None, dir_fd=None):
         # go through our own unlink/rmdir wrappers (deterministic order: sorted names, depth first)
